@@ -760,6 +760,11 @@ class Renderer:
             # selectattr/rejectattr behave as loop filters on the element
             for attr, want in filt_tests:
                 a = elem + "." + attr
+                # over `<m>.items()` an attribute path `1.x` / `0.x` addresses the value / the key of the pair: the same element the
+                # loop target `for k, v in ...` binds (ELEM(<m>.values()) / KEY(<m>))
+                if base.endswith(".items()") and re.match(r"[01]\.", attr):
+                    m_ = base[: -len(".items()")]
+                    a = ("ELEM(" + m_ + ".values())" if attr[0] == "1" else "KEY(" + m_ + ")") + attr[1:]
                 v = self.val.atom(a, (id(n), attr))
                 self.guards = self.guards + ((("a", a) if want else ("n", ("a", a))),)
                 if v != want:
